@@ -45,6 +45,15 @@ def query_world(k, rng):
             'queries': ['cat', 'Cat', 'dogs']}
 
 
+def expand_world(k, rng):
+    # hypernym paths through placeholders of an expand lexicon (they and the simulated
+    # root share the rowid 0: ties in every order by rowid)
+    w = worlds.expand_world(rng)
+    docs_ = [w.resource([l[0]]) for l in w.lex]
+    return {'id': k, 'docs': docs_, 'scope': 'l:1', 'expand': rng.choice(['e:1', '*', 'e:1']),
+            'corpus': ['cat', 'dog'], 'queries': ['cat']}
+
+
 def doc_world(k, rng):
     res = docs.random_resource(rng, rng.choice(['1.0', '1.1', '1.3']), adversarial=False, size=4)
     scope = ' '.join(f"{L['id']}:{L['version']}" for L in res['lexicons'])
@@ -84,6 +93,9 @@ def c16(tier: str) -> int:
     for _ in range(60 if thorough else 8):
         k += 1
         cases.append(doc_world(k, rng))
+    for _ in range(60 if thorough else 14):
+        k += 1
+        cases.append(expand_world(k, rng))
     seeds = [0, 1, 2, 3] + ([5, 7, 11, 13, 17, 19, 23, 29, 31, 37, 41, 43] if thorough else [seed() + 100])
     per = max(1, len(cases) // NCPU)
     jobs = [{'cases': cases[j:j + per]} for j in range(0, len(cases), per)]
